@@ -121,7 +121,9 @@ class SMCSampler(MCMCSampler):
         """
         if not self.adaptive:
             beta += beta_step
-            if beta >= 1.0:
+            # Snap to 1 within half a step: the accumulated sum of n steps
+            # of 1/n can fall just short of 1.0 in floating point
+            if beta + 0.5 * beta_step >= 1.0:
                 beta = 1.0
         else:
             beta_prev = beta
